@@ -15,9 +15,11 @@ import (
 	"fmt"
 	"go/token"
 	"go/types"
+	"os"
 	"runtime"
 	"slices"
 	"strings"
+	"time"
 
 	"golang.org/x/tools/go/ssa"
 )
@@ -54,6 +56,8 @@ type interpreter struct {
 	initFail map[*ssa.Package]string
 	fnCount  map[*ssa.Function]int64 // instructions executed per function (coverage evidence)
 	depth    int
+	overrides map[string]*ssa.Function
+	initSteps int64
 	rawInit  *ssa.Function
 	wantInit map[string]bool
 	sched    *scheduler // goroutine mode (nil = sequential)
@@ -448,6 +452,9 @@ func callSSA(i *interpreter, caller *frame, callpos token.Pos, fn *ssa.Function,
 		}
 		return nil
 	}
+	if ov := i.overrideFor(fn); ov != nil {
+		return callSSA(i, caller, callpos, ov, args, nil)
+	}
 	if ext := findExternal(fn); ext != nil {
 		if i.trace {
 			fmt.Printf("%*s(external) %s\n", i.depth, "", fn)
@@ -524,6 +531,12 @@ func runFrame(fr *frame) {
 	for {
 		nonPhis := executePhis(fr)
 		n := int64(len(nonPhis))
+		if i.run == nil {
+			i.initSteps += n
+			if i.initSteps > 60_000_000 {
+				panic(pathEnd{kind: "init-budget", msg: "package init exceeded its instruction budget in " + fr.fn.String()})
+			}
+		}
 		if i.run != nil {
 			i.run.steps += n
 			if i.run.steps > i.run.maxSteps {
@@ -683,28 +696,39 @@ func newInterpreter(prog *ssa.Program, sizes types.Sizes) *interpreter {
 	return i
 }
 
-// Packages whose init functions are never interpreted (their globals
-// stay zero; their functions are stubbed or unsupported).
-var skipInit = map[string]bool{
-	"runtime": true, "os": true, "syscall": true, "reflect": true, "sync": true, "time": true,
-	"internal/poll": true, "internal/testlog": true, "os/signal": true, "net": true, "os/exec": true,
-	"internal/godebug": true, "internal/cpu": true, "internal/bytealg": true, "internal/syscall/unix": true,
-	"sync/atomic": true, "internal/reflectlite": true, "io/fs": false, "log": true, "fmt": true,
-	"internal/fmtsort": true, "encoding/json": true, "encoding/base64": false, "internal/oserror": false,
-	"testing": true, "flag": true, "runtime/debug": true, "runtime/pprof": true, "runtime/trace": true,
-	"os/user": true, "crypto/sha256": true, "crypto": true, "hash/crc32": true, "math/rand": true, "internal/abi": true,
-	"internal/race": true, "internal/itoa": true, "context": true, "internal/sysinfo": true, "internal/goos": true,
-	"text/template": true, "go/build": true, "go/doc": true, "net/http": true, "net/url": true, "crypto/tls": true,
-	"github.com/qiniu/x/log": true, "go/types": true, "go/importer": true, "math/big": true, "go/constant": true,
-	"compress/flate": true, "compress/gzip": true, "archive/zip": true, "mime": true, "regexp": true, "regexp/syntax": true,
-	"github.com/fsnotify/fsnotify": true, "golang.org/x/sys/unix": true, "html/template": true, "html": true, "text/template/parse": true,
-	"go/doc/comment": true, "internal/buildcfg": true, "internal/goroot": true, "go/build/constraint": false, "math/rand/v2": true,
-	"crypto/md5": true, "crypto/sha1": true, "crypto/sha512": true, "hash/fnv": true, "encoding/binary": true, "internal/profile": true,
-	"log/slog": true, "internal/bisect": true, "iter": true, "unique": true, "weak": true, "internal/sync": true, "crypto/rand": true,
-	"github.com/goplus/gogen": true, "github.com/goplus/gogen/packages": true, "github.com/goplus/gogen/internal": true,
-	"golang.org/x/mod/module": true, "golang.org/x/mod/semver": false, "github.com/goplus/mod/modcache": true, "github.com/goplus/mod/env": true,
-	"github.com/goplus/mod": true, "github.com/goplus/mod/modfetch": true, "github.com/goplus/mod/modload": true, "github.com/goplus/mod/xgomod": true,
-	"github.com/goplus/xgo/cl": true, "github.com/goplus/xgo/tool": false, "text/tabwriter": false,
+// initAllowed: packages whose init functions are interpreted (per worker).
+// Everything else keeps zero-valued globals unless a check lists it in
+// WantInit: package inits are environment (they read os.Args, env vars,
+// compile regexps, build big tables) and most are irrelevant to the code
+// under test.
+var initAllowStd = map[string]bool{
+	"errors": true, "unicode": true, "unicode/utf8": true, "unicode/utf16": true, "strconv": true, "strings": true, "bytes": true,
+	"io": true, "io/fs": true, "path": true, "path/filepath": true, "sort": true, "slices": true, "maps": true, "math": true, "math/bits": true,
+	"go/token": true, "go/scanner": true, "go/ast": true, "go/parser": true, "go/printer": false, "bufio": true, "text/tabwriter": true,
+	"encoding/base64": true, "encoding/hex": true, "cmp": true, "internal/stringslite": true, "internal/filepathlite": true,
+	"internal/oserror": true, "internal/itoa": true, "internal/byteorder": true, "container/list": true, "container/heap": true,
+	"go/build/constraint": true, "go/internal/typeparams": true, "hash": true, "syscall": false, "io/ioutil": true,
+	"github.com/qiniu/x/errors": true, "github.com/qiniu/x/stringutil": true, "github.com/qiniu/x/byteutil": true, "github.com/qiniu/x/xgo": true,
+	"github.com/qiniu/x/stringslice": true, "github.com/qiniu/x/ctype": true, "github.com/qiniu/x/xgo/ng": false,
+	"github.com/goplus/gogen/token": true,
+}
+
+var initDenyRepo = map[string]bool{
+	"github.com/goplus/xgo/cl": true, "github.com/goplus/xgo/env": true,
+	"github.com/goplus/xgo/x/build": true, "github.com/goplus/xgo/x/typesutil": true, "github.com/goplus/xgo/cl/internal/typesutil": true,
+}
+
+func initAllowed(path string, wanted map[string]bool) bool {
+	if wanted[path] {
+		return true
+	}
+	if strings.HasPrefix(path, repoModule) {
+		if initDenyRepo[path] || strings.HasPrefix(path, repoModule+"/cmd") {
+			return false
+		}
+		return true
+	}
+	return initAllowStd[path]
 }
 
 // initPackage runs pkg's init function (after its imports') once per worker.
@@ -720,20 +744,20 @@ func (i *interpreter) initPackage(pkg *ssa.Package, wanted map[string]bool) {
 		}
 	}
 	path := pkg.Pkg.Path()
-	if skipInit[path] && !wanted[path] {
+	if !initAllowed(path, wanted) {
 		i.initFail[pkg] = "skipped by configuration"
 		return
-	}
-	if strings.HasPrefix(path, "internal/") || strings.HasPrefix(path, "vendor/") || strings.HasPrefix(path, "crypto/") {
-		if !wanted[path] {
-			i.initFail[pkg] = "skipped (internal)"
-			return
-		}
 	}
 	fn := pkg.Func("init")
 	if fn == nil {
 		return
 	}
+	if os.Getenv("GOSYM_INITLOG") != "" {
+		t0 := time.Now()
+		fmt.Fprintf(os.Stderr, "init %s ...\n", path)
+		defer func() { fmt.Fprintf(os.Stderr, "init %s done in %.2fs\n", path, time.Since(t0).Seconds()) }()
+	}
+	i.initSteps = 0
 	func() {
 		defer func() {
 			if p := recover(); p != nil {
